@@ -583,3 +583,52 @@ fn cli_pipeline() {
     let _ = std::fs::remove_dir_all(&dir);
     if let Err(e) = result { std::panic::resume_unwind(e); }
 }
+
+/// V:state:as_svg_uses:* — the SVG of a state places the cell outline at the cell and its 8 neighbours, then per placement the shape at
+/// its Cartesian transform followed by the shape at that placement's 8 nearest lattice images (SVG `matrix(a b c d e f)` = m00 m10 m01 m11 m02 m12)
+#[test]
+fn svg_places() {
+    use nalgebra::Matrix3;
+    use packing::{LJShape2, MolecularShape2, PackedState, PotentialState};
+    fn uses(doc: &str) -> Vec<(String, String, Vec<f64>)> {
+        let mut out = vec![];
+        for part in doc.split("<use ").skip(1) {
+            let tag = &part[..part.find('>').unwrap_or(part.len())];
+            let attr = |k: &str| tag.split(&format!("{}=\"", k)).nth(1).and_then(|r| r.split('"').next()).unwrap_or("").to_string();
+            let tr = attr("transform");
+            let nums: Vec<f64> = tr.trim_start_matches("matrix(").trim_end_matches(')').split_whitespace().filter_map(|x| x.parse().ok()).collect();
+            out.push((attr("href"), attr("fill"), nums));
+        }
+        out
+    }
+    fn entries(t: &Transform2) -> Vec<f64> { let m: Matrix3<f64> = t.clone().into(); vec![m[(0, 0)], m[(1, 0)], m[(0, 1)], m[(1, 1)], m[(0, 2)], m[(1, 2)]] }
+    fn check(what: &str, svg: String, cell: &Cell2, rel: Vec<Transform2>) {
+        let got = uses(&svg);
+        let mut want: Vec<(String, String, Vec<f64>)> = vec![];
+        for t in cell.periodic_images(Transform2::identity(), 1, true) { want.push(("#cell".into(), "".into(), entries(&t))); }
+        for p in rel.iter() {
+            want.push(("#mol".into(), "blue".into(), entries(&cell.to_cartesian_isometry(*p))));
+            for t in cell.periodic_images(*p, 1, false) { want.push(("#mol".into(), "green".into(), entries(&t))); }
+        }
+        assert!(got.len() == want.len(), "WITNESS {}: the SVG has {} <use> elements, the structure has {} (9 cells + 9 per placement)", what, got.len(), want.len());
+        for (i, (g, w)) in got.iter().zip(want.iter()).enumerate() {
+            let close = g.2.len() == 6 && g.2.iter().zip(w.2.iter()).all(|(a, b)| (a - b).abs() <= 1e-9 * a.abs().max(b.abs()).max(1.));
+            assert!(g.0 == w.0 && g.1 == w.1 && close, "WITNESS {}: <use> element {} is href={} fill={} matrix{:?}, the structure has href={} fill={} matrix{:?}", what, i, g.0, g.1, g.2, w.0, w.1, w.2);
+        }
+    }
+    let mut r = rng();
+    for (name, g) in all_groups().iter() {
+        let st = PackedState::from_group(MolecularShape2::from_trimer(0.637556, 120., 1.), g).unwrap();
+        for round in 0..10 {
+            if round > 0 { for b in st.generate_basis().iter_mut() { b.set_sampled(&mut r, 0.6); } }
+            check(&format!("PackedState {} parameters {:?}", name, st.generate_basis().iter().map(|b| b.get_value()).collect::<Vec<_>>()),
+                  st.as_svg().to_string(), &st.cell, st.relative_positions().collect());
+        }
+        let st = PotentialState::from_group(LJShape2::from_trimer(0.63, 120., 1.), g).unwrap();
+        for round in 0..10 {
+            if round > 0 { for b in st.generate_basis().iter_mut() { b.set_sampled(&mut r, 0.6); } }
+            check(&format!("PotentialState {} parameters {:?}", name, st.generate_basis().iter().map(|b| b.get_value()).collect::<Vec<_>>()),
+                  st.as_svg().to_string(), &st.cell, st.relative_positions().collect());
+        }
+    }
+}
